@@ -404,8 +404,10 @@ Fixpoint vruns_bytes (prev : option vrun) (rs : list vrun) : str :=
   | [] => []
   | r :: rest => vrun_bytes prev (match rest with n :: _ => Some n | [] => None end) r ++ vruns_bytes (Some r) rest
   end.
+(* strings.ReplaceAll(l.VoiceName, ">", "&gt;"): a '>' would close the voice tag inside the name *)
+Definition voice_esc (v : str) : str := flat_map (fun c => if c =? 62 then [38;103;116;59] else [c]) v.
 Definition vline_bytes (l : vline) : str :=
-  (match vl_voice l with [] => [] | v => [60;118;32] ++ v ++ [62] end) ++ vruns_bytes None (vl_runs l) ++ [10].
+  (match vl_voice l with [] => [] | v => [60;118;32] ++ voice_esc v ++ [62] end) ++ vruns_bytes None (vl_runs l) ++ [10].
 
 Definition setting (key : str) (v fb : str) : str :=
   match v with
